@@ -167,7 +167,8 @@ type nrConsumer struct {
 type nrInputs struct {
 	eff                 nrEff
 	now                 time.Time
-	stale               bool
+	stale               bool // nothing measured within the degrade time (includes absent)
+	absent              bool // the NodeMetric object did not exist when the reconcile looked it up
 	capacity, reserved  nrRes
 	sysRaw, hostHP, sys nrRes
 	cons                []nrConsumer
@@ -208,6 +209,7 @@ func (s *nrSim) inputs(c *nrCapture, eff nrEff, zones int) *nrInputs {
 	// node reservation: the kubelet's (capacity - allocatable) or the koordinator annotation, whichever is larger
 	in.reserved = nrRes{nrMaxI(kube.cpu, anno.cpu), nrMaxI(kube.mem, anno.mem)}
 	m := c.metric
+	in.absent = m == nil
 	in.stale = m == nil || m.Status.UpdateTime == nil || in.now.After(m.Status.UpdateTime.Add(time.Duration(eff.degradeMin)*time.Minute))
 	if m == nil || m.Status.NodeMetric == nil {
 		return in
@@ -378,15 +380,38 @@ func (s *nrSim) checkReconcile(req reconcile.Request, c *nrCapture, err error) {
 		r.Probe("reconcile-colocation-disabled")
 		return
 	}
-	if !c.metricRead || c.pods == nil {
-		return // a read failed before the calculation
+	if !c.metricRead {
+		return // a read failed before the NodeMetric was looked up
 	}
 	zones := 0
 	if c.nrt != nil {
 		zones = len(c.nrt.Zones)
 	}
+	if c.pods == nil {
+		// The reconcile ended after it had looked the NodeMetric up and before it listed the pods. With an error it is
+		// retried (no verdict). Without one the reconciler is done with the node for now: whatever it saw published
+		// stays promised, and that is only acceptable while measurements younger than the degrade time exist. (The
+		// bound itself cannot be evaluated without the pod list the reconcile would have read.)
+		if err != nil {
+			return
+		}
+		c.calcNow = time.Now()
+		in := s.inputs(c, eff, zones)
+		r.OracleEval()
+		r.Probe("reconcile-ended-before-calculation")
+		if in.stale && len(c.nodeWrites) == 0 && c.nodeGets == 1 && !c.nodeGone {
+			s.checkNodeValues(req.Name, "kept", c.node, in)
+		}
+		return
+	}
 	in := s.inputs(c, eff, zones)
 	r.OracleEval()
+	if in.absent {
+		r.Probe("reconcile-nodemetric-absent")
+		if s.published(c.node) {
+			r.Probe("reconcile-nodemetric-absent-amounts-published")
+		}
+	}
 	// history classes of recorded defects (conditions on what the reconcile read, not on what it wrote)
 	if !in.stale {
 		for i := range in.cons {
@@ -438,8 +463,12 @@ func (s *nrSim) checkNodeValues(name, mode string, node *corev1.Node, in *nrInpu
 			r.Fail("negative", nrShort(string(rn)), "node %s %s: %s = %d", name, mode, rn, v)
 		}
 		if in.stale {
+			how := map[string]string{"write": "written", "kept": "left published"}[mode]
+			if v != 0 && in.absent {
+				r.Fail("absent-not-reset", mode+"/"+nrShort(string(rn)), "node %s: the NodeMetric does not exist at the reconcile (now %s), no measurement backs any amount, but %s = %d is %s", name, in.now.Format(time.RFC3339), rn, v, how)
+			}
 			if v != 0 {
-				r.Fail("stale-not-reset", mode+"/"+nrShort(string(rn)), "node %s: metric is stale at the reconcile (now %s, degrade %dm) but %s = %d is %s", name, in.now.Format(time.RFC3339), in.eff.degradeMin, rn, v, map[string]string{"write": "written", "kept": "left published"}[mode])
+				r.Fail("stale-not-reset", mode+"/"+nrShort(string(rn)), "node %s: metric is stale at the reconcile (now %s, degrade %dm) but %s = %d is %s", name, in.now.Format(time.RFC3339), in.eff.degradeMin, rn, v, how)
 			}
 			continue
 		}
@@ -840,7 +869,13 @@ func (s *nrSim) checkLiveness() {
 			continue
 		}
 		r.Probe("liveness-metric-stale")
+		if m == nil {
+			r.Probe("liveness-metric-absent")
+		}
 		for _, rn := range nrExtNames {
+			if q, present := node.Status.Allocatable[rn]; present && q.Value() != 0 && m == nil {
+				r.Fail("absent-liveness", nrShort(string(rn)), "node %s: the NodeMetric does not exist since %s at the latest, now %s (sync period %ds, no fault since %s) but %s = %d is still published", n.name, staleAt.Format(time.RFC3339), now.Format(time.RFC3339), s.cfg.SyncSec, s.settleAt.Format(time.RFC3339), rn, q.Value())
+			}
 			if q, present := node.Status.Allocatable[rn]; present && q.Value() != 0 {
 				r.Fail("stale-liveness", nrShort(string(rn)), "node %s: metric stale since %s, now %s (sync period %ds, no fault since %s) but %s = %d is still published", n.name, staleAt.Format(time.RFC3339), now.Format(time.RFC3339), s.cfg.SyncSec, s.settleAt.Format(time.RFC3339), rn, q.Value())
 			}
@@ -849,10 +884,68 @@ func (s *nrSim) checkLiveness() {
 			for zi := range nrt.Zones {
 				for _, ri := range nrt.Zones[zi].Resources {
 					if (ri.Name == string(extension.BatchCPU) || ri.Name == string(extension.BatchMemory)) && !ri.Allocatable.IsZero() {
+						if m == nil {
+							r.Fail("absent-liveness", "zone/"+nrShort(ri.Name), "node %s zone %s: the NodeMetric does not exist since %s at the latest but zone amount %s = %s is still published in the NodeResourceTopology (node-level amounts are withdrawn)", n.name, nrt.Zones[zi].Name, staleAt.Format(time.RFC3339), ri.Name, ri.Allocatable.String())
+						}
 						r.Tag("zone-amounts-published-when-metric-goes-stale")
 						r.Fail("stale-liveness", "zone/"+nrShort(ri.Name), "node %s zone %s: metric stale since %s but zone amount %s = %s is still published in the NodeResourceTopology (node-level amounts are withdrawn)", n.name, nrt.Zones[zi].Name, staleAt.Format(time.RFC3339), ri.Name, ri.Allocatable.String())
 					}
 				}
+			}
+		}
+	}
+}
+
+// ---------------------------------------------------------------- NodeMetric absent: quiescent points
+
+// published: does the node object promise any batch / mid amount?
+func (s *nrSim) published(node *corev1.Node) bool {
+	if node == nil {
+		return false
+	}
+	for _, rn := range nrExtNames {
+		if q, present := node.Status.Allocatable[rn]; present && q.Value() != 0 {
+			return true
+		}
+	}
+	return false
+}
+
+// checkQuiescent is the statement's "withdraw instead of freezing an old value" at the quiescent points of the
+// controller (DESIGN.md 2.8): every event about nodes, NodeMetrics and the ConfigMap has been delivered, the work
+// queue is empty and no retry of the node is waiting. At such a point nothing further will happen to the node until
+// the environment changes something, so a node whose NodeMetric does not exist (there is no measurement at all any
+// more, and the controller has been told so) must have nothing promised. Unlike a metric that merely grows old -
+// which no event announces, hence the sync-period bound of checkLiveness - the disappearance is an event.
+// Not demanded: config cache unavailable or colocation disabled for the node (the reconciler must not calculate), and
+// a node whose reconcile was lost to an injected fault (s.missed) until it is reconciled again.
+func (s *nrSim) checkQuiescent() {
+	st, r := s.st, s.r
+	if len(st.pending[nrKindNode])+len(st.pending[nrKindMetric])+len(st.pending[nrKindCM]) > 0 || s.q.Len() > 0 {
+		return
+	}
+	for _, n := range s.nodes {
+		node := s.nodeObj(n)
+		if node == nil || st.latest(nrKindMetric, "/"+n.name) != nil {
+			continue
+		}
+		if s.q.waiting(s.reqOf("/" + n.name)) {
+			r.Probe("quiescent-absent-skipped-retry-pending")
+			continue
+		}
+		if s.missed[n.name] {
+			r.Probe("quiescent-absent-skipped-reconcile-lost-to-fault")
+			continue
+		}
+		eff, ok := s.effective(node)
+		if !ok || !eff.enabled {
+			continue
+		}
+		r.OracleEval()
+		r.Probe("quiescent-nodemetric-absent")
+		for _, rn := range nrExtNames {
+			if q, present := node.Status.Allocatable[rn]; present && q.Value() != 0 {
+				r.Fail("absent-quiescent", nrShort(string(rn)), "node %s: the NodeMetric does not exist, every node / NodeMetric / ConfigMap event has been delivered and the work queue is empty (now %s), but %s = %d is still published", n.name, time.Now().Format(time.RFC3339), rn, q.Value())
 			}
 		}
 	}
